@@ -160,6 +160,104 @@ pub fn boundary_pool(full: bool) -> Vec<Value> {
     p
 }
 
+/// Dense same-type boundary values (C01 / C02 `cells-dense`): every power-of-two boundary a narrower intermediate
+/// type would have (2^k − 1, 2^k, 2^k + 1, both signs), the operands whose product / quotient sits at the i128 edge,
+/// the mantissa / scale edges of Decimal, and the instants / spans at which the *other* accessors of chrono
+/// (nanosecond, microsecond, millisecond and 32-bit counts) overflow — a fast path through a narrower type or another
+/// library call is wrong exactly there.
+pub fn dense_pool(full: bool) -> Vec<Value> {
+    let mut p: Vec<Value> = vec![];
+    let ks: &[u32] = if full { &[7, 8, 15, 16, 24, 31, 32, 48, 52, 53, 62, 63, 64, 65, 95, 96, 97, 126, 127] } else { &[31, 32, 53, 63, 64, 96, 127] };
+    let mut ints: Vec<i128> = vec![0, 1, -1, 2, -2, 3, 10, -10];
+    for k in ks {
+        for delta in [-1i128, 0, 1] {
+            let base: i128 = if *k == 127 { i128::MAX } else { 1i128 << k };
+            let v = base.checked_add(delta).unwrap_or(i128::MAX);
+            ints.push(v);
+            ints.push(v.checked_neg().unwrap_or(i128::MIN));
+        }
+    }
+    ints.push(i128::MIN);
+    // floor(sqrt(2^127)) and neighbours: squares and products that cross the i128 edge although both operands fit 64 bits
+    for v in [13043817825332782212i128, 13043817825332782213, 18446744073709551615, 9223372036854775807, 6521908912666391106, 26087635650665564424] {
+        ints.push(v);
+        ints.push(-v);
+    }
+    // unit counts at which i64 seconds / milliseconds overflow for week … second constructors
+    for v in [9223372036854775i128, 9223372036854776, 153722867280912, 153722867280913, 2562047788015, 2562047788016, 106751991167, 106751991168, 15250284452, 15250284453] {
+        ints.push(v);
+        ints.push(-v);
+    }
+    ints.sort();
+    ints.dedup();
+    for i in ints {
+        p.push(Value::Int(i));
+    }
+    // decimals: mantissa edges × scale edges, both signs
+    let mants: &[i128] = if full {
+        &[1, 5, 10, (1 << 32) - 1, 1 << 32, (1 << 64) - 1, 1 << 64, (1 << 64) + 1, (1 << 95), (1 << 96) - 2, (1 << 96) - 1, 39614081257132168796771975168, 7922816251426433759354395033]
+    } else {
+        &[1, 5, (1 << 64) - 1, 1 << 64, (1 << 96) - 1, 7922816251426433759354395033]
+    };
+    let scales: &[u32] = if full { &[0, 1, 2, 14, 27, 28] } else { &[0, 1, 28] };
+    for m in mants {
+        for sc in scales {
+            p.push(d(*m, *sc));
+            p.push(d(-*m, *sc));
+        }
+    }
+    p.push(d(0, 0));
+    p.push(d(0, 28));
+    // floats at the integer-conversion and precision edges
+    for f in [9007199254740991.0f64, 9007199254740992.0, 9007199254740994.0, 9223372036854775807.0, 9223372036854777856.0, 18446744073709551616.0, 1.7014118346046923e38, 1.7014118346046921e38, 4294967296.0, 2147483648.0, 0.1, 1e-320, f64::MIN_POSITIVE, f64::MAX, f64::EPSILON] {
+        p.push(Value::Float(f));
+        p.push(Value::Float(-f));
+    }
+    // instants: edges of i64 nanoseconds / microseconds since the epoch, of 32-bit second counts, years 0 / 1 / 9999 / 10000
+    let mut secs: Vec<i64> = vec![
+        9223372036, 9223372037, -9223372036, -9223372037, 8210266876798, -8334601228799, 4294967295, 4294967296,
+        2147483647, 2147483648, -2147483648, -2147483649, 253402300799, 253402300800, -62135596800,
+        -62135596801, -62167219200, -62167219201, 8210266876799, -8334601228800, 0, -1,
+    ];
+    if !full {
+        secs.truncate(12);
+        secs.extend([253402300799, 253402300800, 8210266876799, -8334601228800, 0]);
+    }
+    for sec in &secs {
+        p.push(dt(*sec, 0));
+        if full {
+            p.push(dt(*sec, 854_775_807));
+            p.push(dt(*sec, 999_999_999));
+        }
+    }
+    p.push(dt(9223372036, 854_775_807));
+    p.push(dt(9223372036, 854_775_808));
+    p.push(dt(-9223372037, 145_224_192));
+    p.push(dt(-9223372037, 145_224_191));
+    // spans: edges of i64 nanoseconds / microseconds / milliseconds, 32-bit second / day counts
+    let mut dsecs: Vec<i64> = vec![
+        9223372036, 9223372037, -9223372036, -9223372037, 9223372036854, 9223372036855, -9223372036854, -9223372036855,
+        9223372036854775, -9223372036854775, 2147483647, 2147483648, -2147483648, -2147483649, 185542587187200, 185542587100800,
+        -185542587187200, 0, 1, -1, 16544868105599, 16544868105600,
+    ];
+    if !full {
+        dsecs.truncate(10);
+        dsecs.extend([2147483648, -2147483649, 0, 1]);
+    }
+    for sec in &dsecs {
+        p.push(dur(*sec, 0));
+        if full && *sec != 9223372036854775 && *sec != -9223372036854775 {
+            p.push(dur(*sec, 854_775_807));
+        }
+    }
+    p.push(dur(9223372036, 854_775_807));
+    p.push(dur(9223372036, 854_775_808));
+    p.push(dur(-9223372037, 145_224_192));
+    p.push(Value::Duration(TimeDelta::MAX));
+    p.push(Value::Duration(TimeDelta::MIN));
+    p
+}
+
 /// ≥3 values per type chosen to coincide after coercion (C03/C04 tables)
 pub fn coercion_pool() -> Vec<Value> {
     vec![
